@@ -54,3 +54,30 @@ Qed.
 
 Theorem scatter_map_spec {A} n p (f : nat -> A) : scatter_map n p f = map f (seq 0 n).
 Proof. unfold scatter_map. now rewrite extents_cover. Qed.
+(* no index is visited twice, by any worker *)
+Theorem covered_NoDup n p : NoDup (covered (extents n p)).
+Proof. rewrite extents_cover. apply seq_NoDup. Qed.
+
+(* never more workers than entries *)
+Lemma workers_le_n n p : workers n (extent_size n p) <= n.
+Proof.
+  pose proof (extent_size_pos n p) as He. set (e := extent_size n p) in *.
+  unfold workers. pose proof (Nat.div_mod n e ltac:(lia)) as D. pose proof (Nat.mod_upper_bound n e ltac:(lia)) as U.
+  destruct (n mod e =? 0) eqn:E; [apply Nat.eqb_eq in E|apply Nat.eqb_neq in E]; nia.
+Qed.
+
+(* bounded parallelism: at most 2p - 1 goroutines for GOMAXPROCS = p >= 1 *)
+Lemma workers_bound n p : 1 <= p -> workers n (extent_size n p) + 1 <= 2 * p.
+Proof.
+  intros Hp. unfold extent_size.
+  pose proof (Nat.div_mod n p ltac:(lia)) as Dp. pose proof (Nat.mod_upper_bound n p ltac:(lia)) as Up.
+  set (q := n / p) in *. set (r := n mod p) in *.
+  destruct (q =? 0) eqn:Eq; [apply Nat.eqb_eq in Eq|apply Nat.eqb_neq in Eq].
+  - unfold workers. rewrite Nat.div_1_r, Nat.mod_1_r. cbn. nia.
+  - destruct (0 <? n mod q) eqn:Er; [apply Nat.ltb_lt in Er|apply Nat.ltb_ge in Er].
+    + unfold workers. pose proof (Nat.div_mod n (S q) ltac:(lia)) as D. pose proof (Nat.mod_upper_bound n (S q) ltac:(lia)) as U.
+      set (a := n / S q) in *. set (b := n mod S q) in *.
+      destruct (b =? 0) eqn:E; [apply Nat.eqb_eq in E|apply Nat.eqb_neq in E]; nia.
+    + unfold workers. pose proof (Nat.div_mod n q ltac:(lia)) as D.
+      assert (n mod q = 0) as Z by lia. rewrite Z in *. cbn [Nat.eqb]. set (a := n / q) in *. nia.
+Qed.
